@@ -11,35 +11,56 @@ func VP_C17_Add() {
 	maxc := zzvp.Param("complen", 2)
 	// files: top-level file, file in a directory, file with an extension
 	dir := vpComp("dir", maxc)
+	nested := zzvp.Choose(2) == 1
+	top := ""
+	if nested {
+		// the directory lives one level down: top/dir/...
+		top = vpComp("top", 1)
+	}
 	ext := zzvp.Str("ext", 1+zzvp.Choose(2), "a-z")
 	plain := vpComp("pl", maxc)
-	fileInDir := dir + "/" + vpComp("in", maxc)
+	dirPath := dir
+	if nested {
+		dirPath = top + "/" + dir
+	}
+	fileInDir := dirPath + "/" + vpComp("in", maxc)
 	withExt := vpComp("we", maxc) + "." + ext
-	zzvp.Assume(plain != dir && withExt != dir && plain != withExt)
+	zzvp.Assume(plain != dir && withExt != dir && plain != withExt && plain != top && withExt != top)
+	// the ignore line names the directory by its full path or (when nested) also by its last component only
+	ignLine := dirPath + "/"
+	if nested && zzvp.Choose(2) == 1 {
+		ignLine = dir + "/"
+	}
 	zzvp.WriteFile(w+"/"+plain, []byte("p"))
 	zzvp.WriteFile(w+"/"+fileInDir, []byte("d"))
 	zzvp.WriteFile(w+"/"+withExt, []byte("e"))
 	ignoreDir, ignoreExt := false, false
 	switch zzvp.Choose(4) {
 	case 1:
-		zzvp.WriteFile(w+"/.goitignore", []byte(dir+"/\n"))
+		zzvp.WriteFile(w+"/.goitignore", []byte(ignLine+"\n"))
 		ignoreDir = true
 	case 2:
 		zzvp.WriteFile(w+"/.goitignore", []byte("*."+ext+"\n"))
 		ignoreExt = true
 	case 3:
-		zzvp.WriteFile(w+"/.goitignore", []byte(dir+"/\n*."+ext+"\n"))
+		zzvp.WriteFile(w+"/.goitignore", []byte(ignLine+"\n*."+ext+"\n"))
 		ignoreDir, ignoreExt = true, true
 	}
 	hasIgnoreFile := ignoreDir || ignoreExt
 	// grow the metadata directory first (index and objects present), then add again in several forms
 	vpOK(zzvp.Run("add", plain))
 	var r zzvp.Result
-	switch zzvp.Choose(4) {
+	switch zzvp.Choose(5) {
 	case 0:
 		r = zzvp.Run("add", ".")
+	case 4:
+		if nested {
+			r = zzvp.Run("add", top)
+		} else {
+			r = zzvp.Run("add", dir)
+		}
 	case 1:
-		r = zzvp.Run("add", dir)
+		r = zzvp.Run("add", dirPath)
 	case 2:
 		r = zzvp.Run("add", fileInDir, withExt)
 	default:
@@ -54,7 +75,7 @@ func VP_C17_Add() {
 		if len(p) >= 6 && p[:6] == ".goit/" {
 			clean = false
 		}
-		if ignoreDir && vpHasDirPrefix(p, dir) {
+		if ignoreDir && vpHasDirPrefix(p, dirPath) {
 			clean = false
 		}
 		if ignoreExt && len(p) > len(ext)+1 && p[len(p)-len(ext)-1:] == "."+ext {
